@@ -697,3 +697,10 @@ def run_wedge(c, out):
                     out.check(em["dims"] == (3, len(want), 1) and bool(np.all(np.abs(em["data"][:, :, 0].T - want) <= 2e-6 * np.maximum(1, np.abs(want)))), "sg_to_em:file_values", f"{em['dims']}")
                 except Exception as e:
                     out.fail("sg_to_em:file_not_valid_em", repr(e))
+
+
+# rejected calls that run before every case (vlib/faults.py): nothing they leave behind - module state, library options,
+# stray files - may make the valid calls of the case violate the statement
+from vlib import faults as _faults  # noqa: E402
+
+fault_calls = _faults.for_property(ID)
